@@ -205,7 +205,7 @@ inline bool plan_effect(Model const& M, ModelTraits const& T, Op const& op, Effe
 				else e.expect_no_alloc = e.expect_no_elem_copies = true;  // equal allocators: the storage is adopted
 				break;
 			}
-			if(op.var != 0) return false;
+			if(op.kind == O_CTOR_MOVE && op.var != 0) return false;  // (the allocator-extended form carries var = 1 from its generator family)
 			if(T.static_arrays && op.kind != O_CTOR_MOVE) return false;
 			if(!slot_ok(D, op.b, T) || op.b == op.a || !M.at(D, op.b).alive) return false;
 			MArr const& b = M.at(D, op.b);
